@@ -84,7 +84,12 @@ func (watcher *RequestWatcher) StopAll() {
 	defer watcher.requestsMapMutex.RUnlock()
 
 	for _, request := range watcher.requests {
-		request.SetProcessedTimeout()
+		// Requests that already got their verdict stay in the map until their
+		// goroutine removes them; signalling them again would panic with a
+		// negative WaitGroup counter.
+		if request.StartProcessing() {
+			request.SetProcessedTimeout()
+		}
 	}
 }
 
